@@ -323,6 +323,20 @@ func c06RefusedScenario(kind string) *explore.Scenario {
 		c.HandleFunc(client.REGISTER, rec("REGISTER"))
 		c.HandleFunc(client.CONNECTED, rec("CONNECTED"))
 		c.HandleFunc(client.DISCONNECTED, rec("DISCONNECTED"))
+		// a lifecycle handler that calls Connect (refused: the connection is up) or Close itself
+		switch kind {
+		case "connect-in-register", "connect-in-connected":
+			evn := map[string]string{"connect-in-register": client.REGISTER, "connect-in-connected": client.CONNECTED}[kind]
+			c.HandleFunc(evn, func(conn *client.Conn, line *client.Line) {
+				err := conn.Connect()
+				vx.Observe("ev", fmt.Sprintf("inner-connect-ret ok=%v", err == nil))
+			})
+		case "close-in-register":
+			c.HandleFunc(client.REGISTER, func(conn *client.Conn, line *client.Line) {
+				err := conn.Close()
+				vx.Observe("ev", fmt.Sprintf("inner-close-ret err=%v connected=%v", err, conn.Connected()))
+			})
+		}
 		var vc *vx.Conn
 		env.ConnSetup = func(x *vx.Conn) {
 			if vc == nil {
@@ -374,6 +388,26 @@ func c06RefusedScenario(kind string) *explore.Scenario {
 		case "close-never-connected":
 			err := c.Close()
 			vx.Observe("ev", fmt.Sprintf("close-ret err=%v", err))
+		case "connect-in-register", "connect-in-connected":
+			err := c.Connect()
+			vx.Observe("ev", fmt.Sprintf("connect-ret ok=%v", err == nil))
+			vx.Quiesce()
+			vx.Observe("ev", fmt.Sprintf("state connected=%v", c.Connected()))
+			vc.SendLines("PING :sync")
+			vx.Quiesce()
+			vx.Observe("ev", fmt.Sprintf("pong-after-refused-connect=%v", HasLine(vc.Lines(), "PONG :sync")))
+			vc.EOF()
+			vx.Quiesce()
+		case "close-in-register":
+			err := c.Connect()
+			vx.Observe("ev", fmt.Sprintf("connect-ret ok=%v", err == nil))
+			vx.Quiesce()
+			vx.Observe("ev", fmt.Sprintf("state connected=%v", c.Connected()))
+			// the client is usable afterwards: one more full connection
+			vc = nil
+			err2 := c.Connect()
+			vx.Observe("ev", fmt.Sprintf("connect-again-ret ok=%v", err2 == nil))
+			vx.Quiesce()
 		case "already-connected":
 			err := c.Connect()
 			vx.Observe("ev", fmt.Sprintf("connect-ret ok=%v", err == nil))
@@ -432,6 +466,24 @@ func c06RefusedScenario(kind string) *explore.Scenario {
 			if count(ev, "DISCONNECTED") != 0 {
 				bad("event-on-noop-close", "Close on a never-connected client fired DISCONNECTED")
 			}
+		case "connect-in-register", "connect-in-connected":
+			if count(ev, "inner-connect-ret ok=false") != 1 {
+				bad("second-connect-accepted", "Connect called from a lifecycle handler of a live connection did not return an error exactly once")
+			}
+			if count(ev, "REGISTER") != 1 || count(ev, "DISCONNECTED") != 1 || count(ev, "CONNECTED") != 1 {
+				bad("event-count-after-refused-connect", "lifecycle events disturbed by a refused Connect")
+			}
+			if count(ev, "connect-ret ok=true") != 1 || count(ev, "state connected=true") != 1 || count(ev, "pong-after-refused-connect=true") != 1 {
+				bad("refused-connect-broke-connection", "the connection is not up and answering PING after the handler's refused Connect")
+			}
+		case "close-in-register":
+			// the handler closes each connection as soon as it is registered: two connects, two REGISTER, two DISCONNECTED
+			if count(ev, "REGISTER") != 2 || count(ev, "DISCONNECTED") != 2 {
+				bad("disconnected-count", fmt.Sprintf("%d REGISTER / %d DISCONNECTED events for two connections closed from their REGISTER handler", count(ev, "REGISTER"), count(ev, "DISCONNECTED")))
+			}
+			if count(ev, "state connected=false") != 1 || count(ev, "connect-again-ret ok=true") != 1 {
+				bad("client-unusable-after-close", "after a Close from the REGISTER handler the client is still marked connected or cannot connect again")
+			}
 		case "already-connected":
 			if count(ev, "connect-again-ret ok=false") != 1 {
 				bad("second-connect-accepted", "Connect on a connected client did not return an error")
@@ -457,7 +509,7 @@ func c06RefusedScenario(kind string) *explore.Scenario {
 func init() {
 	Register(&Prop{
 		ID:   "C06",
-		Rule: "every execution, within the deviation budgets, of each lifecycle scenario = (1 or 2 coinciding disconnect causes from {Close, Close x2, server EOF, read error on read k, write error on write k, context cancel}) x configuration (tracking / client pings / flood control / context-aware connect) x optional concurrent re-Connect, plus refused/failing connects and no-op closes; REGISTER/CONNECTED/DISCONNECTED handlers sample Connected(); distinct = distinct canonical observation per scenario",
+		Rule: "every execution, within the deviation budgets, of each lifecycle scenario = (1 or 2 coinciding disconnect causes from {Close, Close x2, server EOF, read error on read k, write error on write k, context cancel}) x configuration (tracking / client pings / flood control / context-aware connect) x optional concurrent re-Connect, plus refused/failing connects (also from inside a REGISTER / CONNECTED handler), Close from inside a REGISTER handler and no-op closes; REGISTER/CONNECTED/DISCONNECTED handlers sample Connected(); distinct = distinct canonical observation per scenario",
 		Assumptions: []string{
 			"interleavings are explored at synchronisation/channel/socket/timer granularity (DESIGN.md 3.8)",
 			"a cause-begin record is logged no later than the moment the disconnect really begins, so the Connected()==true oracle is conservative",
@@ -528,7 +580,8 @@ func init() {
 			}
 			add(c06Params{Causes: []string{"close"}, Extra: "reconnect", Direct: true}, budgets, 25)
 			for _, k := range []string{"no-server", "dial-error", "close-never-connected", "already-connected",
-				"dial-error+direct", "already-connected+direct", "tls-fail", "tls-fail+direct", "dial-error-then-connect", "dial-error-then-connect+direct", "tls-fail-then-connect", "tls-fail-then-connect+direct"} {
+				"dial-error+direct", "already-connected+direct", "tls-fail", "tls-fail+direct", "dial-error-then-connect", "dial-error-then-connect+direct", "tls-fail-then-connect", "tls-fail-then-connect+direct",
+				"connect-in-register", "connect-in-connected", "close-in-register"} {
 				jobs = append(jobs, ExploreJob("C06", ExploreSpec{Sc: c06RefusedScenario(k), Variants: []int{1, 2, 3}, Budgets: []explore.Budget{{0, 0}, {1, 0}, {2, 0}}, Cache: true}, 5))
 			}
 			return jobs
